@@ -192,11 +192,11 @@ func shiftSpace[T any](r *Run, d *Driver[T], name string, inputs [][]byte, cfgs 
 }
 
 func checkC11(r *Run) {
-	r.Assume = []string{"offsets k in {1,2,3,255,256,257,32767,32768,65535-len-1,65535-len} (thorough: every k for every 40th input); junk kinds NUL, 'a', CRLF pairs, ': ', 0xff, CRLFCRLF",
+	r.Assume = []string{"offsets k in {1,2,3,255,256,257,32767,32768,65535-len-1,65535-len} (thorough: every k for every 64th input); junk kinds NUL, 'a', CRLF pairs, ': ', 0xff, CRLFCRLF",
 		"comparison: one-shot at offset 0 vs one-shot at offset k; non-empty fields shifted by exactly k, empty fields shifted or unset, every other value equal",
 		"parsed URIs: AdjustOffs to every listed offset k with span = URI length (the full span/offset product is C18); ParseURI itself always parses from offset 0 of the slice it is given"}
 	maxIn := r.pick(6000, 60000)
-	every := 40
+	every := 64
 	plain := []Cfg{{HdrCap: -1, ValCap: -1}}
 	// messages
 	var msgs [][]byte
@@ -452,5 +452,5 @@ func init() {
 	}
 	register("C11", &checkDef{fn: checkC11,
 		rule:        "E4: every input (all prefixes included) of the message menus and of each sub-parser's C02 space (two levels below its byte bound) is parsed at offset 0 and at each listed offset k behind junk of several kinds on the real code; verdict equal, offset and every non-empty field shifted by exactly k, all other values equal; states = inputs, transitions = parses at an offset; non-trivial = inputs with a definitive verdict",
-		quickBudget: 150 * time.Second, thorBudget: 30 * time.Minute})
+		quickBudget: 150 * time.Second, thorBudget: 45 * time.Minute})
 }
